@@ -311,7 +311,8 @@ class Harness:
             except Exception as e:
                 return ('exc', dsl.exc_class(e))
 
-        if fault is None:
+        any_order = uses_par and self.opts.get('par_any_order')
+        if fault is None and not any_order:
             mret = run_model()
 
         # ---- real run
@@ -363,6 +364,24 @@ class Harness:
                 mret = ('exc', 'fault')
             else:
                 mret = run_model()
+        elif any_order:
+            # tasks race for one key: every sequential order of the tasks is a valid reference
+            import itertools
+            ntasks = max(len(st_[1]) for blk in [prog['root']] + [f['body'] for f in prog['funcs'].values()]
+                         for st_ in dsl.iter_stmts(blk) if st_[0] == 'par')
+            first = None
+            for order in itertools.permutations(range(ntasks)):
+                mctx = dsl.Ctx('model', prog, versions, ctx_step, self.universe, self.masked)
+                mctx.extra['par_order'] = list(order)
+                mb = ModelBuild(pre_model, self.prev, self.cache, versions, self.R)
+                mret = run_model()
+                if first is None:
+                    first = (mctx, mb, mret)
+                if _outcome_key(mret) == _outcome_key(rret):
+                    self.stats['par_order_%s' % ''.join(map(str, order))] += 1
+                    break
+            else:
+                mctx, mb, mret = first
         post = snapshot(self.R)
         info = {'step': self.step, 'model': mret if mret[0] == 'exc' else ('ok',), 'real': rret if rret[0] == 'exc' else ('ok',)}
         self.rctx, self.mctx, self.mb = rctx, mctx, mb
@@ -473,7 +492,8 @@ class Harness:
             new_prev = Prev(mb.outputs, set(mb.created) | set(cd), versions, mb.forest)
             new_prev.meta = {p: (post[p][1], post[p][2]) for p in mb.outputs if p in post and post[p][0] == 'f'}
             new_prev.overwrote_foreign = bool(mb.overwritten_foreign)
-            new_prev.had_fault = fault_fired        # the conditions of that build (an injected I/O error) no longer hold
+            # the conditions of that build no longer hold next time: an injected I/O error / the winner of a key race
+            new_prev.had_fault = fault_fired or bool(any_order)
             self.prev = new_prev
             self.last_committed = {'step': self.step, 'observed': self._observed_paths(mb.forest, mctx),
                                    'outputs': set(mb.outputs), 'created': set(mb.created) | set(cd),
@@ -787,6 +807,7 @@ class Harness:
 
         strict = (not self.mutated_since_commit and not getattr(prev, 'overwrote_foreign', False)
                   and not getattr(self, '_fault_fired_now', False) and not getattr(prev, 'had_fault', False)
+                  and not self.opts.get('par_any_order')
                   and versions_equal(prev.versions, versions, list(self.prog['funcs'])))
         if strict:
             self.stats['c05_unchanged_rebuilds'] += 1
